@@ -22,6 +22,8 @@ struct Case {
     docs: [usize; 7],
     /// doc comments written after the item's other attributes
     docs_after: bool,
+    /// the module also has a `backend rust` prologue and epilogue containing items
+    backend: bool,
 }
 
 fn doc_lines(what: &str, choice: usize) -> Vec<String> {
@@ -49,7 +51,7 @@ fn cases(tier: &str) -> Vec<Case> {
                     if em != 0 && em != 7 && !(vis == 0 || vis == 127 || vis == 0b1010101) {
                         continue;
                     }
-                    out.push(Case { vis, pm, tm, em, docs: [1, 1, 0, 1, 0, 1, 0], docs_after: (vis + pm) % 2 == 1 });
+                    out.push(Case { vis, pm, tm, em, docs: [1, 1, 0, 1, 0, 1, 0], docs_after: (vis + pm) % 2 == 1, backend: (vis + em) % 3 == 0 });
                 }
             }
         }
@@ -58,8 +60,8 @@ fn cases(tier: &str) -> Vec<Case> {
     let nd: usize = if tier == "thorough" { 5 } else { 3 };
     for idx in 0..nd.pow(7) {
         let d = util::decode(idx, &[nd; 7]);
-        for (vis, pm, tm, em, docs_after) in [(127u32, 0u32, 0u32, 0u32, false), (0b0101010, 0b0111, 0b011, 0b111, false), (0b0101010, 0b0111, 0b011, 0b111, true)] {
-            out.push(Case { vis, pm, tm, em, docs: [d[0], d[1], d[2], d[3], d[4], d[5], d[6]], docs_after });
+        for (vis, pm, tm, em, docs_after, backend) in [(127u32, 0u32, 0u32, 0u32, false, false), (0b0101010, 0b0111, 0b011, 0b111, false, true), (0b0101010, 0b0111, 0b011, 0b111, true, false)] {
+            out.push(Case { vis, pm, tm, em, docs: [d[0], d[1], d[2], d[3], d[4], d[5], d[6]], docs_after, backend });
         }
     }
     out
@@ -143,14 +145,19 @@ fn spec_of(c: &Case) -> ModuleS {
     d.public = true;
     d.fields = vec![FieldS::new("base", MTy::user("T")).based()];
     d.packed = t.packed;
-    m.items = vec![
+    let mut pre = vec![];
+    if c.backend {
+        pre.push(Item::Backend { name: "rust".into(), prologue: Some("use core::ffi::c_void as PrologueItem;".into()), epilogue: Some("pub const EPILOGUE_ITEM: u32 = 1;".into()) });
+    }
+    m.items = pre;
+    m.items.extend(vec![
         Item::Type(t),
         Item::Impl { name: "T".into(), funcs: vec![f, g] },
         Item::Type(p),
         Item::Enum(e),
         Item::ExternValue { name: "gv".into(), public: bit(c.vis, 5), ty: MTy::b("u32"), address: Some(0x3000) },
         Item::Type(d),
-    ];
+    ]);
     m
 }
 
